@@ -30,7 +30,7 @@ na = [{"property_id": p, "reason": NA_REASON.get(p, "no check registered yet: th
       for p in ALL if p not in CHECKS]
 m = {
     "version": 1,
-    "setup_cmd": f"cd /verif/engine && {ENV} go build -o /verif/bin/symgo . && cd /verif && bin/symgo selfcheck",
+    "setup_cmd": f"cd /verif/engine && {ENV} mkdir -p refx86 refarm64 && cp $(go env GOROOT)/src/cmd/vendor/golang.org/x/arch/x86/x86asm/*.go refx86/ && cp $(go env GOROOT)/src/cmd/vendor/golang.org/x/arch/arm64/arm64asm/*.go refarm64/ && {ENV} go build -o /verif/bin/symgo . && cd /verif && bin/symgo selfcheck",
     "hooks": {
         "guard": "verif",
         "enable": "none needed: harnesses, environment stubs and replays are injected with go/packages and `go test -overlay` overlays generated from /repo's current tree; no hook code lives in /repo",
